@@ -611,7 +611,11 @@ class Program:
                 yield node, self.resolve_call(fi, node)
 
     def all_functions(self) -> Iterable[FunctionInfo]:
-        return self.functions.values()
+        """Every function of the program, except helpers that were absorbed into their callers (core/inline.py): their
+        statements are analysed where they execute, under the caller's name - listing them again would report one
+        construct twice, the second time in a function no reference table knows."""
+        absorbed = {callee for _, callee in getattr(self, "inlined", [])}
+        return [f for q, f in self.functions.items() if q not in absorbed]
 
     def digest_of(self, module_names: Iterable[str]) -> str:
         h = hashlib.sha256()
